@@ -22,6 +22,21 @@ def find_modules(pkg_dir, pkg_name):
     return mods
 
 
+def star_names(path):
+    """the names `from m import *` fetches: the literal __all__ of the module (None -> nothing modelled)"""
+    try:
+        tree = ast.parse(open(path, encoding='utf8').read())
+    except Exception:
+        return []
+    for st in tree.body:
+        if isinstance(st, ast.Assign) and any(isinstance(t, ast.Name) and t.id == '__all__' for t in st.targets):
+            try:
+                return [x for x in ast.literal_eval(st.value) if isinstance(x, str)]
+            except Exception:
+                return []
+    return []
+
+
 def tracked(name):
     return name.split('.')[0] in TRACKED
 
@@ -90,6 +105,11 @@ class Extractor:
                             break
             if isinstance(n, ast.Call):
                 f = n.func
+                if (isinstance(f, ast.Name) and f.id in ('hasattr', 'getattr') and len(n.args) >= 2 and
+                        isinstance(n.args[0], ast.Name) and n.args[0].id in self.aliases and
+                        isinstance(n.args[1], ast.Constant) and isinstance(n.args[1].value, str)):
+                    soft = f.id == 'hasattr' or len(n.args) >= 3
+                    self.step('probe' if soft else 'use', self.aliases[n.args[0].id], n.args[1].value, catch)
                 if isinstance(f, ast.Name):
                     called.add(f.id)
                 elif isinstance(f, ast.Attribute):
@@ -161,6 +181,8 @@ class Extractor:
                 self.imp_chain(base, catch)
                 for al in st.names:
                     if al.name == '*':
+                        for nm in star_names(self.all[base][0]):
+                            self.step('use', base, nm, catch)
                         continue
                     self.step('from', base, al.name, catch)
                     bound = al.asname or al.name
